@@ -18,15 +18,30 @@ const boxMaxSteps = 6000
 
 // boxHistory runs one history; crashAt != 0 schedules a crash at that crash point. Returns the box.
 func boxHistory(c *vfCase, mon boxMonFlags, o boxOpts, genSeed, schedSeed uint64, crashAt int, faults []int) *cbox {
+	return boxHistoryOpt(c, mon, o, genSeed, schedSeed, crashAt, faults, false)
+}
+
+func boxHistoryOpt(c *vfCase, mon boxMonFlags, o boxOpts, genSeed, schedSeed uint64, crashAt int, faults []int, recordLabels bool) *cbox {
 	g := &boxGen{r: vfNewRand(genSeed), big: o.big}
 	cb := newCbox(c, mon, schedSeed)
 	cb.k.CrashAt = crashAt
+	cb.k.RecordLabels = recordLabels
 	cb.faultPlan = faults
+	cb.k.OnCrash = func() {
+		cb.recordCrash()
+		if crashAt > 0 && crashAt <= len(cb.k.PointLabels) {
+			cb.crashRec.Label = cb.k.PointLabels[crashAt-1]
+		}
+		// a fresh fault plan for the new instance
+		cb.faultPlan = boxFaultPlan(g.r)
+	}
+	cb.k.RecordLabels = true
 	cb.seedStore(g)
 	c.Logf("initial pools: %s", vfPoolDump(boxPoolList(cb.k.Store)))
 	for _, k := range vfSortedKeys(cb.k.Store.Services) {
 		c.Logf("initial service: %s", boxSvcDump(cb.k.Store.Services[k]))
 	}
+	cb.booted = true
 	cb.k.Start()
 	var prev *boxQuiet
 	settle := func(events []string) bool {
@@ -73,6 +88,9 @@ func boxHistory(c *vfCase, mon boxMonFlags, o boxOpts, genSeed, schedSeed uint64
 		cb.k.Kill()
 		return cb
 	}
+	if mon.c06 && cb.crashRec != nil {
+		cb.crashOracle()
+	}
 	if o.finalSync {
 		w0 := len(cb.writes)
 		cb.k.Pending = append(cb.k.Pending, cb.evResync())
@@ -116,7 +134,7 @@ func (cb *cbox) stabilityWindow(prev, cur *boxQuiet, events []string) {
 		writes[w.Key]++
 	}
 	for _, k := range vfSortedKeys(prev.Specs) {
-		if cur.Specs[k] != prev.Specs[k] {
+		if cur.Specs[k] != prev.Specs[k] || cur.Touches[k] != prev.Touches[k] {
 			continue // changed, deleted
 		}
 		a := prev.IPs[k]
@@ -157,6 +175,10 @@ func (cb *cbox) stabilityWindow(prev, cur *boxQuiet, events []string) {
 		okGain := false
 		if !okSame && len(a) == 1 && len(b) == 2 && req.Policy == vfPolPrefer && (b[0] == a[0] || b[1] == a[0]) && cur.Cur != nil {
 			okGain = vfPoolOf(cur.Cur.Model, b) == vfPoolOf(cur.Cur.Model, a)
+		}
+		if !okSame && !okGain && cb.gainedThenInadmissible(k, a, prev.Writes, req) {
+			c.Count("windows-with-gain-then-inadmissible-pair")
+			continue
 		}
 		if !okSame && !okGain {
 			c.Violation("stability:address-changed", fmt.Sprintf("%s held %v, which stayed admissible through %v (%d configuration versions), but now holds %v; spec: %s",
@@ -206,4 +228,318 @@ func TestVerif_C07(t *testing.T) {
 func TestVerif_C11(t *testing.T) {
 	boxRun(t, "C11", boxMonFlags{c11: true}, boxOpts{events: 24, epochMax: 3, big: true}, vfSizes{Quick: 100, Thorough: 2500},
 		"non-trivial = distinct (pool layout, usage) whose counters were checked after a handler")
+}
+
+// ---------------------------------------------------------------- C06: crash points x fault plans
+
+type boxCrashRec struct {
+	Point    int
+	Label    string
+	Versions int
+	Writes   int
+	MemLog   int
+	Touches  map[string]int
+	IPs      map[string][]string
+	Specs    map[string]string
+	Reqs     map[string]*vfSvcReq
+}
+
+func (cb *cbox) recordCrash() {
+	r := &boxCrashRec{Point: cb.k.Points, Versions: len(cb.delivered), Writes: len(cb.writes), MemLog: len(cb.memLog), Touches: map[string]int{}, IPs: map[string][]string{}, Specs: map[string]string{}, Reqs: map[string]*vfSvcReq{}}
+	for k, svc := range cb.k.Store.Services {
+		q := vfSvcRequirement(svc)
+		r.Reqs[k] = &q
+		r.Specs[k] = boxSpecHash(svc)
+		r.IPs[k] = q.StatusIPs
+		r.Touches[k] = cb.touches[k]
+	}
+	cb.crashRec = r
+}
+
+// crashOracle runs at the final quiescent point of a history in which the controller crashed once.
+func (cb *cbox) crashOracle() {
+	c := cb.c
+	rec := cb.crashRec
+	after := cb.delivered[rec.Versions:]
+	if len(after) == 0 || cb.cur == nil {
+		c.Count("restarts-without-valid-config")
+		return
+	}
+	c.Count("restarts-judged")
+	final := cb.k.Store.Services
+	untouched := func(k string) bool {
+		return final[k] != nil && boxSpecHash(final[k]) == rec.Specs[k] && cb.touches[k] == rec.Touches[k]
+	}
+	admissibleAfter := func(k string) bool {
+		for _, d := range after {
+			w := &vfWorld{Pools: d.Model, Holdings: map[string]*vfHolding{}}
+			if ok, _ := w.ipsAdmissible(rec.Reqs[k], rec.IPs[k], false, true); !ok {
+				return false
+			}
+		}
+		return true
+	}
+	conflict := func(k string) bool {
+		for o, ips := range rec.IPs {
+			if o == k || len(ips) == 0 {
+				continue
+			}
+			shares := false
+			for _, a := range ips {
+				for _, b := range rec.IPs[k] {
+					if a == b {
+						shares = true
+					}
+				}
+			}
+			if !shares {
+				continue
+			}
+			if !vfShareOK(rec.Reqs[k], rec.Reqs[o]) {
+				return true
+			}
+			if final[o] != nil {
+				fr := vfSvcRequirement(final[o])
+				if !vfShareOK(rec.Reqs[k], &fr) {
+					return true
+				}
+			}
+		}
+		return false
+	}
+	victims := map[string]bool{}
+	var lost []string
+	for _, k := range vfSortedKeys(rec.IPs) {
+		a := rec.IPs[k]
+		if len(a) == 0 {
+			continue
+		}
+		c.Eval()
+		if !untouched(k) {
+			c.Count("recorded-services-touched-after-crash")
+			continue
+		}
+		if !admissibleAfter(k) {
+			c.Count("recorded-services-no-longer-admissible")
+			continue
+		}
+		if conflict(k) {
+			c.Count("recorded-services-in-recorded-conflict")
+			continue
+		}
+		c.Count("recorded-services-that-must-keep-their-addresses")
+		fr := vfSvcRequirement(final[k])
+		b := fr.StatusIPs
+		ok := vfSameSet(a, b)
+		if !ok && len(a) == 1 && len(b) == 2 && fr.Policy == vfPolPrefer && (b[0] == a[0] || b[1] == a[0]) {
+			ok = vfPoolOf(cb.cur.Model, b) == vfPoolOf(cb.cur.Model, a)
+		}
+		if !ok && cb.gainedThenInadmissible(k, a, rec.Writes, rec.Reqs[k]) {
+			c.Count("recorded-services-that-gained-a-family-which-later-became-inadmissible")
+			continue
+		}
+		if !ok {
+			victims[k] = true
+			lost = append(lost, k)
+		}
+	}
+	for _, k := range lost {
+		a := rec.IPs[k]
+		b := vfSvcRequirement(final[k]).StatusIPs
+		{
+			// who took it? (first change of the allocator memory after the crash that gave one of the addresses to another service)
+			thief, how := "", "dropped"
+			for _, w := range cb.memLog[rec.MemLog:] {
+				if w.Key == k || thief != "" {
+					continue
+				}
+				for _, x := range w.IPs {
+					cx, _, _ := vfCanonIP(x)
+					for _, y := range a {
+						if cx == y {
+							thief = w.Key
+						}
+					}
+				}
+			}
+			if thief != "" {
+				switch {
+				case victims[thief]:
+					how = "taken-by-displaced-service"
+				case len(rec.IPs[thief]) == 0:
+					how = "taken-by-unrecorded-service"
+				case !untouched(thief):
+					how = "taken-by-service-changed-after-the-crash"
+				case !admissibleAfter(thief) || conflict(thief):
+					how = "taken-by-service-whose-own-record-was-inadmissible"
+				default:
+					how = "taken-by-service-with-admissible-record"
+					if len(rec.IPs[thief]) == 1 && rec.Reqs[thief].Policy == vfPolPrefer && len(rec.Reqs[thief].Families) == 2 {
+						how = "taken-as-additional-family-by-recorded-service"
+					}
+				}
+			}
+			c.Violation("restart:recorded-address-lost:"+how, fmt.Sprintf("%s had %v recorded when the controller stopped (point %d), the addresses stayed admissible, but after the restart it holds %v (%s %s); spec: %s",
+				k, a, rec.Point, b, how, thief, boxSvcDump(final[k])), nil)
+		}
+	}
+	// (ii) a service without a record never ends on an address recorded for another service
+	for _, k := range vfSortedKeys(final) {
+		if len(rec.IPs[k]) > 0 {
+			continue
+		}
+		fr := vfSvcRequirement(final[k])
+		for _, x := range fr.StatusIPs {
+			for _, o := range vfSortedKeys(rec.IPs) {
+				if o == k {
+					continue
+				}
+				held := false
+				for _, y := range rec.IPs[o] {
+					if y == x {
+						held = true
+					}
+				}
+				if !held {
+					continue
+				}
+				c.Eval()
+				c.Count("unrecorded-service-on-previously-recorded-address")
+				if !untouched(o) || !admissibleAfter(o) || conflict(o) || victims[o] || cb.gainedThenInadmissible(o, rec.IPs[o], rec.Writes, rec.Reqs[o]) {
+					continue // the former holder legitimately gave it up (or lost it as reported above)
+				}
+				or := vfSvcRequirement(final[o])
+				still := false
+				for _, y := range or.StatusIPs {
+					if y == x {
+						still = true
+					}
+				}
+				if still && vfShareOK(&fr, &or) {
+					continue
+				}
+				c.Violation("restart:address-stolen-by-unrecorded-service", fmt.Sprintf("%s had no address recorded when the controller stopped (point %d) and ended on %s, which was recorded for %s (now holding %v)",
+					k, rec.Point, x, o, or.StatusIPs), nil)
+			}
+		}
+	}
+}
+
+func boxFaultPlan(r *vfRand) []int {
+	n := r.Intn(5)
+	var out []int
+	for i := 0; i < n; i++ {
+		out = append(out, vfPick(r, []int{boxFaultOK, boxFaultBefore, boxFaultAfter, boxFaultBefore}))
+	}
+	return out
+}
+
+func TestVerif_C06(t *testing.T) {
+	rule := "each base history is first executed crash-free to enumerate its crash points (every scheduler yield, before/after every status write, after every user event), then re-executed with one crash at selected points (quick: up to 10 incl. status-write boundaries; thorough: up to 60) and a fault plan of <= 4 failing status writes (before/after apply); non-trivial = distinct (crash point label, pending/recorded constellation at the crash instant)"
+	vfMain(t, "C06", vfSizes{Quick: 15, Thorough: 60}, boxRule+rule, func(c *vfCase) {
+		genSeed, schedSeed := c.R.U64(), c.R.U64()
+		o := boxOpts{events: 18, epochMax: 3}
+		dry := boxHistoryOpt(c, boxMonFlags{}, o, genSeed, schedSeed, 0, nil, true)
+		n := dry.k.Points
+		labels := dry.k.PointLabels
+		c.CountN("crash-points-enumerated", n)
+		if n == 0 {
+			return
+		}
+		budget := 10
+		if vfTier() == "thorough" {
+			budget = 60
+		}
+		// prefer status-write boundaries, then a seeded sample of the rest
+		var writes, rest []int
+		for i, l := range labels {
+			if l == "before-status-write" || l == "after-status-write" {
+				writes = append(writes, i+1)
+			} else {
+				rest = append(rest, i+1)
+			}
+		}
+		vfShuffle(c.R, writes)
+		vfShuffle(c.R, rest)
+		var picks []int
+		for len(picks) < budget/2 && len(writes) > 0 {
+			picks = append(picks, writes[0])
+			writes = writes[1:]
+		}
+		for len(picks) < budget && len(rest) > 0 {
+			picks = append(picks, rest[0])
+			rest = rest[1:]
+		}
+		for _, idx := range picks {
+			faults := boxFaultPlan(c.R)
+			c.Logf("######## crash run: crash at point %d (%s), fault plan %v", idx, labels[idx-1], faults)
+			cb := boxHistoryOpt(c, boxMonFlags{c06: true, c01: true, c02: true}, o, genSeed, schedSeed, idx, faults, false)
+			c.Count("crash-runs")
+			if cb.k.Crashes > 0 && cb.crashRec != nil {
+				c.Count("crashes-executed")
+				lab := cb.crashRec.Label
+				if lab == "" {
+					lab = "?"
+				}
+				c.Count("crash-kind:" + boxCrashKind(lab))
+				pend, recd := 0, 0
+				for _, ips := range cb.crashRec.IPs {
+					if len(ips) == 0 {
+						pend++
+					} else {
+						recd++
+					}
+				}
+				c.Nontrivial(fmt.Sprintf("%s|pending=%d|recorded=%d|faults=%v", lab, pend, recd, faults))
+			} else {
+				c.Count("crash-point-not-reached")
+			}
+			c.CountN("failed-writes-injected", cb.faultsInjected)
+		}
+	})
+}
+
+func boxCrashKind(label string) string {
+	switch {
+	case label == "before-status-write" || label == "after-status-write" || label == "after-event":
+		return label
+	case len(label) > 4 && label[:4] == "svc:":
+		return "in-service-reconcile"
+	case len(label) > 5 && label[:5] == "pool:":
+		return "in-pool-reconcile"
+	}
+	return "other"
+}
+
+// gainedThenInadmissible: the service gained the missing family after index w0 of the write log (the
+// permitted change) and the pair it then held did not stay admissible under every later
+// configuration version, so a later re-allocation is legitimate.
+func (cb *cbox) gainedThenInadmissible(k string, a []string, w0 int, req *vfSvcReq) bool {
+	if len(a) != 1 || req.Policy != vfPolPrefer || len(req.Families) != 2 {
+		return false
+	}
+	for _, w := range cb.writes[w0:] {
+		if w.Key != k || len(w.IPs) != 2 {
+			continue
+		}
+		var pair []string
+		has := false
+		for _, x := range w.IPs {
+			cx, _, _ := vfCanonIP(x)
+			pair = append(pair, cx)
+			if cx == a[0] {
+				has = true
+			}
+		}
+		if !has {
+			continue
+		}
+		for _, d := range cb.delivered[w.Versions:] {
+			wd := &vfWorld{Pools: d.Model, Holdings: map[string]*vfHolding{}}
+			if ok, _ := wd.ipsAdmissible(req, pair, false, true); !ok {
+				return true
+			}
+		}
+	}
+	return false
 }
